@@ -2,6 +2,7 @@ package main
 
 import (
 	"fmt"
+	"math"
 	"strconv"
 	"strings"
 
@@ -41,6 +42,16 @@ func fixedCases() []corr.Case {
 		mk("fixed-wide-maxcap", "wnew tiny 9223372036854775807 1 8 mod", "set 0 1 1", "get 0"),
 		mk("fixed-wide-maxcap", "wnew lru 9223372036854775807 2 8 mod", "set 0 1 1", "get 0"),
 		mk("fixed-wide-maxcap", "wnew lru 9223372036854775806 1 8 mod", "set 0 1 1", "get 0"))
+	// the int64 size counter wraps inside the property's quantifier (sizes >= 0): MaxInt64 capacity, MaxInt64 item, one more
+	out = append(out,
+		mk("fixed-size-overflow", "new lru 9223372036854775807", "set 0 1 9223372036854775807", "stats", "set 1 2 1", "stats", "keys"),
+		mk("fixed-size-overflow", "new lru 9223372036854775807", "set 0 1 9223372036854775806", "set 1 2 1", "stats", "set 2 3 0", "get 0"),
+		// large capacities (nothing may clamp them), nil key, nil value (tiny), every key type
+		mk("fixed-bigcap", "new lru 1048576", "cap 1048577", "stats", "cap 2097153", "set 0 1 2097152", "set 1 2 2", "stats", "cap 1099511627776", "set 2 3 1099511627775", "stats", "cap 9223372036854775807", "set 3 4 5", "stats", "cap 4611686018427387903", "stats"),
+		mk("fixed-nil", "new lru 3", "set 4242 1 1", "exist 4242", "get 4242", "peek 4242", "set 0 2 1", "set 1 3 1", "set 2 4 1", "exist 4242", "sia 4242 5 1", "del 4242", "del 4242", "keys"),
+		mk("fixed-nil", "new tiny 3", "set 4242 0 1", "exist 4242", "get 4242", "set 1 0 1", "get 1", "peek 1", "sgr 2 0 1", "sia 3 0 1", "items", "set 4 0 1", "del 4242", "keys", "set 1 7 1", "get 1"),
+		mk("fixed-keytypes", "new lru 12", "set 0 1 1", "set 1 2 1", "set 2 3 1", "set 3 4 1", "set 4 5 1", "set 5 6 1", "set 70000 7 1", "get 3", "peek 4", "exist 5", "del 1", "del 70000", "keys", "items", "stats"),
+	)
 	// out-of-regime streams: the model follows the code also for negative sizes (size accounting drifts, Back() of an empty list)
 	out = append(out,
 		mk("fixed-negative", "new lru 1", "set 0 1 -5", "set 1 2 6", "stats", "del 0", "stats", "set 2 3 0", "stats"),
@@ -115,13 +126,13 @@ func genCase(r *rng.R, tier string, i int) corr.Case {
 	}
 	cls := r.Intn(100)
 	switch {
-	case cls < 50: // mixed
+	case cls < 40: // mixed
 		lines := []string{fmt.Sprintf("new %s %d", kd, capacity)}
 		for j := 0; j < n; j++ {
 			lines = append(lines, g.op(6, capacity))
 		}
 		return corr.Case{Tag: "mixed-" + kd, Lines: lines}
-	case cls < 60: // fill to the brim with unit items, then probe the boundary
+	case cls < 48: // fill to the brim with unit items, then probe the boundary
 		lines := []string{fmt.Sprintf("new %s %d", kd, capacity)}
 		for j := 0; j < capacity+2; j++ {
 			g.line++
@@ -134,7 +145,7 @@ func genCase(r *rng.R, tier string, i int) corr.Case {
 			lines = append(lines, g.op(8, capacity))
 		}
 		return corr.Case{Tag: "brim-" + kd, Lines: lines}
-	case cls < 70: // many small entries, then SetCapacity shrinking by several entries at once
+	case cls < 56: // many small entries, then SetCapacity shrinking by several entries at once
 		big := r.Range(8, 30)
 		lines := []string{fmt.Sprintf("new %s %d", kd, big)}
 		for j := 0; j < 10; j++ {
@@ -152,7 +163,7 @@ func genCase(r *rng.R, tier string, i int) corr.Case {
 			lines = append(lines, fmt.Sprintf("cap %d", big), g.op(10, big))
 		}
 		return corr.Case{Tag: "shrink-" + kd, Lines: lines}
-	case cls < 78: // in-place growth
+	case cls < 63: // in-place growth
 		lines := []string{fmt.Sprintf("new %s %d", kd, capacity)}
 		for j := 0; j < n; j++ {
 			g.line++
@@ -163,7 +174,7 @@ func genCase(r *rng.R, tier string, i int) corr.Case {
 			}
 		}
 		return corr.Case{Tag: "growth-" + kd, Lines: lines}
-	case cls < 92: // wide variants
+	case cls < 75: // wide variants
 		shards := r.PickInt(1, 2, 3, 5, 7)
 		u := 8
 		capacity = r.Range(0, 14)
@@ -197,10 +208,14 @@ func genCase(r *rng.R, tier string, i int) corr.Case {
 			}
 		}
 		return corr.Case{Tag: tag, Lines: lines}
-	case cls < 95: // concurrent callers (invariants only)
+	case cls < 78: // concurrent callers: parallel stress run in a child process
 		lines := []string{fmt.Sprintf("new %s %d", kd, capacity)}
-		for j := 0; j < 5; j++ {
-			lines = append(lines, g.op(6, capacity))
+		if r.Chance(1, 3) {
+			lines = []string{fmt.Sprintf("wnew %s %d %d 8 mod", kd, capacity, r.PickInt(1, 2, 3, 5))}
+		} else {
+			for j := 0; j < 5; j++ {
+				lines = append(lines, g.op(6, capacity))
+			}
 		}
 		ops := 200
 		if tier != "quick" {
@@ -208,6 +223,71 @@ func genCase(r *rng.R, tier string, i int) corr.Case {
 		}
 		lines = append(lines, fmt.Sprintf("conc %d %d %d", r.Intn(100000), r.Range(2, 8), ops))
 		return corr.Case{Tag: "concurrent-" + kd, Lines: lines}
+	case cls < 86: // long lists (Delete / Peek / Get far beyond a dozen or 64 entries), unit-ish sizes
+		capacity = r.Range(14, 160)
+		lines := []string{fmt.Sprintf("new %s %d", kd, capacity)}
+		keys := capacity + r.Range(2, 20)
+		for j := 0; j < capacity+5; j++ {
+			g.line++
+			lines = append(lines, fmt.Sprintf("set %d %d %d", j%keys, g.line, r.PickInt(1, 1, 1, 0, 2)))
+		}
+		for j := 0; j < n; j++ {
+			k := r.Intn(keys)
+			switch r.Intn(8) {
+			case 0, 1:
+				lines = append(lines, fmt.Sprintf("del %d", k))
+			case 2, 3:
+				lines = append(lines, fmt.Sprintf("peek %d", k))
+			case 4:
+				lines = append(lines, fmt.Sprintf("get %d", k))
+			case 5:
+				lines = append(lines, fmt.Sprintf("exist %d", k))
+			case 6:
+				g.line++
+				lines = append(lines, fmt.Sprintf("%s %d %d 1", r.Pick("set", "sia", "sgr"), k, g.line))
+			default:
+				lines = append(lines, r.Pick("stats", "cap "+fmt.Sprint(r.Range(10, 200))))
+			}
+		}
+		return corr.Case{Tag: "long-" + kd, Lines: lines}
+	case cls < 94: // large capacities and sizes (2^20 … MaxInt64/2), nil key, nil values, keys of every Go type
+		big := []int64{1 << 20, 1<<20 + 1, 1<<21 + 3, 1 << 31, 1<<32 + 7, 1 << 40, 1<<62 - 1, 1 << 62, math.MaxInt64}
+		c0 := big[r.Intn(len(big))]
+		lines := []string{fmt.Sprintf("new %s %d", kd, c0)}
+		cur := c0
+		for j := 0; j < n; j++ {
+			g.line++
+			k := r.PickInt(0, 1, 2, 3, 4, 5, nilKey, 70001, 65540)
+			v := g.line
+			if kd == "tiny" && r.Chance(1, 4) {
+				v = 0 // nil value
+			}
+			switch r.Intn(9) {
+			case 0, 1, 2:
+				sz := []int64{0, 1, cur / 2, cur/2 + 1, cur - 1, cur, 1 << 20, 1 << 31}[r.Intn(8)]
+				if sz < 0 {
+					sz = 0
+				}
+				if cur > 1<<62 && sz > 1<<61 {
+					sz = 1 << 61 // keep the sum inside int64 here; the overflow has its own fixed scripts
+				}
+				lines = append(lines, fmt.Sprintf("%s %d %d %d", r.Pick("set", "sgr", "sia"), k, v, sz))
+			case 3:
+				cur = big[r.Intn(len(big))]
+				lines = append(lines, fmt.Sprintf("cap %d", cur))
+			case 4:
+				lines = append(lines, fmt.Sprintf("get %d", k))
+			case 5:
+				lines = append(lines, fmt.Sprintf("exist %d", k))
+			case 6:
+				lines = append(lines, fmt.Sprintf("del %d", k))
+			case 7:
+				lines = append(lines, fmt.Sprintf("peek %d", k))
+			default:
+				lines = append(lines, "stats")
+			}
+		}
+		return corr.Case{Tag: "bigcap-" + kd, Lines: lines}
 	default: // malformed / out of regime
 		lines := []string{fmt.Sprintf("new %s %d", kd, r.Range(-2, 6))}
 		for j := 0; j < n; j++ {
